@@ -5,7 +5,7 @@
 (*  unsafe-file error, -1 none), resolved (number of pickle.find_class audit  *)
 (*  events during the call), ranA / ranB (sink calls of A / of the swapped-in  *)
 (*  B), eq_stock (returned object equals the stock unpickler's for A)          *)
-EXTENDS Naturals, Sequences, TLC, Json, IOUtils, TLCExt
+EXTENDS Integers, Sequences, TLC, Json, IOUtils, TLCExt
 T == JsonDeserialize(IOEnv.VERIF_TRACE)
 VARIABLES tid, done, verdict
 vars == <<tid, done, verdict>>
